@@ -29,14 +29,79 @@ def run_shard(spec):
     quick = spec["tier"] == "quick"
     for _ in range(4 if quick else 60):
         st.run_world(rng, cstream.C01_CLASSES, nblocks=rng.choice([8, 14, 22, 30]), ncand=45 if quick else 60)
+    if spec["shard"] % 4 == 3:
+        node_lane(st, rng, 3 if quick else 40)
     return st.result()
+
+
+def node_lane(st, rng, nhist):
+    """'full validation' is also the path relayed blocks take: the spend classes are delivered over the wire to a real node
+    with the real store (per-delivery oracle of C09: state, chain table, write buffer, pool, relays), then the node is
+    'restarted' -- the chain state is rebuilt from the store by the repository's own loader -- and must not contain any
+    block that was refused"""
+    import io
+    import sys
+    from skv.props import c09
+    import skepticoin.scripts.utils as su
+    import skepticoin.blockstore as bs
+    from skepticoin.blockstore import BlockStore
+    classes = dict(cstream.C01_CLASSES)
+    for j in range(nhist):
+        mon = c09.Monitor()
+        h = c09.History(mon, rng, "c01-%d" % j)
+        refused = []
+        orig_deliver = h.deliver
+
+        def deliver(rblk, cls, must, may, _h=h, _od=orig_deliver):
+            before = mon.c["rejected"]
+            _od(rblk, cls, must, may)
+            if mon.c["rejected"] > before:
+                refused.append((rblk.id(), cls))
+        h.deliver = deliver
+        path = h.path
+        # History.run removes the database file at the end: keep a copy for the restart
+        import shutil
+        import os as _os
+        _rm = _os.remove
+        try:
+            _os.remove = lambda p_: shutil.copy(p_, p_ + ".kept") or _rm(p_) if p_ == path else _rm(p_)
+            h.run(rng.choice([25, 40]), classes)
+        finally:
+            _os.remove = _rm
+        st.c["node_lane_deliveries"] = st.c.get("node_lane_deliveries", 0) + mon.c["deliveries"]
+        st.c["node_lane_refused"] = st.c.get("node_lane_refused", 0) + len(refused)
+        for v in mon.viol:
+            st.v("relay-path:" + v["key"], v["msg"], v["witness"])
+        kept = path + ".kept"
+        if _os.path.exists(kept):
+            out = sys.stdout
+            sys.stdout = io.StringIO()
+            try:
+                store = BlockStore(kept)
+                old = bs.DefaultBlockStore.instance
+                bs.DefaultBlockStore.instance = store
+                try:
+                    rebuilt = su.read_chain_from_disk()
+                finally:
+                    bs.DefaultBlockStore.instance = old
+                    store.close()
+            finally:
+                sys.stdout = out
+            _os.remove(kept)
+            st.c["node_lane_restarts"] = st.c.get("node_lane_restarts", 0) + 1
+            for bid, cls in refused:
+                if bid in rebuilt.block_by_hash:
+                    st.v("refused-block-in-chain-state-after-restart", "class %s: a block refused on the relay path is part of the chain "
+                         "state rebuilt from the block store" % cls, {"lane": "node", "class": cls})
+                    break
 
 
 def finalize(m, tier):
     c = m["counters"]
     floors = [("attempts", c.get("attempts", 0), 500), ("accepted_with_ordinary_tx", c.get("accepted_with_ordinary_tx", 0), 50),
               ("followup_valid_accepted", c.get("followup_valid_accepted", 0), 50),
-              ("parents_losing_tip", c.get("parents_losing_tip", 0), 50), ("parents_old", c.get("parents_old", 0), 50)]
+              ("parents_losing_tip", c.get("parents_losing_tip", 0), 50), ("parents_old", c.get("parents_old", 0), 50),
+              ("node_lane_refused", c.get("node_lane_refused", 0), 60), ("node_lane_restarts", c.get("node_lane_restarts", 0), 6)]
     for cls in cstream.C01_CLASSES:
         floors.append(("class " + cls, c.get("by_class", {}).get(cls, 0), 8))
     if c.get("ref_valid_but_rejected", 0):
